@@ -285,6 +285,11 @@ def run(ctx):
         for rec, m in lst:
             ctx.violation(f"run:{inv}:{m['input']}", f"{inv} violated on {m}", {"pdb": texts[m["input"]][1], "optargs": m["optargs"]})
     ctx.sample({"runs": [m for m in metas if m.get("ion_dets")][:3]})
+    # the bound at the level of one interaction (tla/Energy.tla): 0 <= value <= configured maximum for every distance,
+    # angle factor and dielectric weight on grids around the break points
+    from .. import energyfn
+    for key_, msg_, payload_ in energyfn.run(ctx, ("bound",), ctx.thorough()):
+        ctx.violation(key_, msg_, payload_)
 
 
 def replay(ctx, path):
